@@ -46,6 +46,43 @@ def reference(cfg, xs):
     return rows
 
 
+def reference_hp(cfg, xs):
+    """The same posterior in 50-digit decimal arithmetic: the arbiter when the binary64 reference and the
+    implementation disagree (extreme hazards make the float reference lose digits)."""
+    from decimal import Decimal as D, getcontext
+
+    getcontext().prec = 50
+    mu0, v0, s2, H = (D(cfg[k]) for k in ("prior_mean", "prior_var", "data_var", "hazard"))
+    X = [D(x) for x in xs]
+    pi = D("3.14159265358979323846264338327950288419716939937510582")
+
+    def post(run):
+        prec = 1 / v0 + len(run) / s2
+        return (mu0 / v0 + sum(run, D(0)) / s2) / prec, prec
+
+    def pdf(x, mu, var):
+        return (-(x - mu) ** 2 / (2 * var)).exp() / (2 * pi * var).sqrt()
+
+    P = [D(1)]
+    rows = []
+    for t in range(1, len(X) + 1):
+        x = X[t - 1]
+        pis = []
+        for k in range(t):
+            mu, prec = post(X[t - 1 - k : t - 1])
+            pis.append(pdf(x, mu, 1 / prec + s2))
+        joint = [sum(P[k] * pis[k] * H for k in range(t))] + [P[k] * pis[k] * (1 - H) for k in range(t)]
+        Z = sum(joint)
+        P = [j / Z for j in joint]
+        mus, vars_ = [], []
+        for k in range(t + 1):
+            mu, prec = post(X[t - k : t])
+            mus.append(mu)
+            vars_.append(1 / prec + s2)
+        rows.append(([float(p) for p in P], float(sum(p * m for p, m in zip(P, mus))), float(sum(p * v for p, v in zip(P, vars_)))))
+    return rows
+
+
 def gen_cfg(rng):
     return dict(
         prior_mean=rng.choice([0.0, 1.0, -3.0, 10.0]),
@@ -133,11 +170,11 @@ def run(ck: Check):
         for t, v in enumerate(xs, 1):
             d.update(value=v)
             row = d.log_r[t, : t + 1]
-            if abs(float(_lse(row))) > 1e-9:
+            if not (abs(float(_lse(row))) <= 1e-9):
                 bad = dict(clause="normalisation", what="run-length row does not sum to one", step=t, log_total=float(_lse(row)))
                 break
             p0 = math.exp(float(row[0]))
-            if abs(p0 - cfg["hazard"]) > 1e-9 * cfg["hazard"] + 1e-15:
+            if not (abs(p0 - cfg["hazard"]) <= 1e-9 * cfg["hazard"] + 1e-15):
                 bad = dict(clause="posterior", what="P(r_t = 0 | data) differs from the hazard (exact identity of the Adams-MacKay posterior with a constant hazard)", step=t, p0=p0, hazard=cfg["hazard"])
                 break
         ck.case(dict(config=cfg, n=n, kind="long-run"), nontrivial=True, key=repr(("long", cfg, n, xs[:3])))
@@ -153,21 +190,35 @@ def check_trace(ck, cfg, xs, out, extra=None):
     extra = extra or {}
     if True:
         ref = reference(cfg, xs)
+        # fast binary64 reference first; if it disagrees with the implementation anywhere, the 50-digit
+        # reference decides (the float reference loses digits for extreme hazards, the code does not)
+        def agrees(rf):
+            for o, (P, pm, pv) in zip(out, rf):
+                row = [math.exp(v) for v in o[3][2:]]
+                if len(row) != len(P) or not (max(abs(a - b_) for a, b_ in zip(row, P)) <= 1e-8):
+                    return False
+                if not (abs(o[3][0] - pm) <= 1e-7 * max(1.0, abs(pm)) and abs(o[3][1] - pv) <= 1e-7 * max(1.0, pv)):
+                    return False
+            return True
+
+        if not agrees(ref):
+            ref = reference_hp(cfg, xs)
+            ck.count("high_precision_arbitrations")
         short = False
         ok = True
         for t, (o, (P, pm, pv)) in enumerate(zip(out, ref)):
             row = [math.exp(v) for v in o[3][2:]]
             detail = dict(config=cfg, stream=xs[: t + 1], step=t, **extra)
-            if abs(sum(row) - 1) > 1e-9:
+            if not (abs(sum(row) - 1) <= 1e-9):
                 ck.violation(dict(clause="normalisation"), dict(what="run-length row does not sum to one", total=sum(row), **detail))
                 ok = False
                 break
-            if len(row) != len(P) or max(abs(a - b_) for a, b_ in zip(row, P)) > 1e-8:
+            if len(row) != len(P) or not (max(abs(a - b_) for a, b_ in zip(row, P)) <= 1e-8):
                 ck.violation(dict(clause="posterior"), dict(what="run-length distribution differs from the exact Adams-MacKay posterior", impl=row[:8], exact=P[:8], **detail))
                 ok = False
                 break
             sc = max(1.0, abs(pm))
-            if abs(o[3][0] - pm) > 1e-7 * sc or abs(o[3][1] - pv) > 1e-7 * max(1.0, pv):
+            if not (abs(o[3][0] - pm) <= 1e-7 * sc and abs(o[3][1] - pv) <= 1e-7 * max(1.0, pv)):  # NaN / missing prediction counts as a difference
                 ck.violation(dict(clause="prediction"), dict(what="predicted mean/variance are not the posterior-weighted mixtures", predicted_mean=o[3][0], predicted_var=o[3][1], exact_mean=pm, exact_var=pv, **detail))
                 ok = False
                 break
